@@ -48,10 +48,11 @@ def wf_attr(a):
         if any(not (0 <= x < 256) for x in p): return 'byte outside u8'
         n = len(p)
         if n > 65535: return 'value of %d bytes is longer than an attribute can carry' % n
-        if code == AS_PATH and not wf_as_path(p): return 'AS_PATH segments malformed'
+        if code == AS_PATH and not wf_as_path(p, False): return 'AS_PATH segments malformed'
         if code == NEXTHOP and n not in (4, 16): return 'NEXT_HOP length %d' % n
         if code == ATOMIC and n != 0: return 'ATOMIC_AGGREGATE with a value'
         if code == AGGREGATOR and n != 8: return 'AGGREGATOR length %d' % n
+        if code in (COMMUNITY, CLUSTER_LIST, EXT_COMMUNITY, LARGE_COMMUNITY) and n == 0: return 'empty list (RFC 7606: zero length is malformed)'
         if code in (COMMUNITY, CLUSTER_LIST) and n % 4: return 'length %d not a multiple of 4' % n
         if code == EXT_COMMUNITY and n % 8: return 'length %d not a multiple of 8' % n
         if code == LARGE_COMMUNITY and n % 12: return 'length %d not a multiple of 12' % n
